@@ -67,7 +67,7 @@ func FlagString(f int) string {
 // Mutating reports whether the operation changes the directory tree or file contents.
 func (o Op) Mutating() bool {
 	switch o.Name {
-	case "write", "pwrite", "renameat", "unlinkat", "mkdirat", "ftruncate", "fchmod", "fchmodat", "utimensat", "linkat", "symlinkat":
+	case "write", "pwrite", "renameat", "unlinkat", "mkdirat", "ftruncate", "fchmod", "fchmodat", "fchown", "fchownat", "utimensat", "linkat", "symlinkat":
 		return true
 	case "openat":
 		return o.Flags&(syscall.O_CREAT|syscall.O_TRUNC) != 0
@@ -93,6 +93,11 @@ type FS struct {
 	// to the other fails with EXDEV, as it does between two real mounts.
 	Other       string
 	CrossDevice bool
+	// Foreign, when set, holds the inodes of files that belong to somebody else (uid/gid
+	// ForeignID in every stat result) although this process may write them, as with a
+	// group-writable checkout of another user; the process itself is an ordinary user, so
+	// giving a file away (chown to an id that is not its own) fails with EPERM.
+	Foreign map[uint64]bool
 	// Handler is called for every owned operation that is not suppressed by the freeze.
 	// It may block (a scheduling point). nil = pass.
 	Handler func(op Op) Decision
@@ -108,13 +113,23 @@ type FS struct {
 
 var current atomic.Pointer[FS]
 
+const ForeignID = 12345
+
 func Install(fs *FS) {
 	current.Store(fs)
 	syscall.VerifFS = hook
+	if fs.Foreign != nil {
+		syscall.VerifFSStat = func(st *syscall.Stat_t) {
+			if f := current.Load(); f != nil && f.Foreign[st.Ino] {
+				st.Uid, st.Gid = ForeignID, ForeignID
+			}
+		}
+	}
 }
 
 func Uninstall() {
 	syscall.VerifFS = nil
+	syscall.VerifFSStat = nil
 	current.Store(nil)
 }
 
@@ -218,6 +233,10 @@ func hook(op string, fd int, path, path2 string, n int, flags int) Decision {
 	fs.mu.Unlock()
 	if fs.CrossDevice && !frozen && (op == "renameat" || op == "linkat") && path2 != "" && fs.mount(full) != fs.mount(path2) {
 		return Decision{Mode: Fail, Err: syscall.EXDEV}
+	}
+	if fs.Foreign != nil && !frozen && (op == "fchown" || op == "fchownat") && (n > 0 || flags > 0) {
+		// an ordinary user cannot give a file to another uid or to a group it is not in
+		return Decision{Mode: Fail, Err: syscall.EPERM}
 	}
 	if frozen {
 		if o.Mutating() || (op == "openat" && flags&syscall.O_ACCMODE != syscall.O_RDONLY) {
